@@ -334,6 +334,15 @@ struct Th<'a> {
     rx: Option<loom::sync::mpsc::Receiver<usize>>,
     tx: Option<loom::sync::mpsc::Sender<usize>>,
     arcs: Vec<Vec<LArc>>,
+    drop_guards: Vec<StoreOnDrop<'a>>,
+}
+
+/// "reset a flag on drop": stores to a loom atomic from a destructor, also while a failure unwinds
+struct StoreOnDrop<'a>(&'a AtomicUsize);
+impl<'a> Drop for StoreOnDrop<'a> {
+    fn drop(&mut self) {
+        self.0.store(9, StdOrd::SeqCst);
+    }
 }
 
 fn run_thread(t: usize, sh: StdArc<Shared>, o: StdArc<Objs>, owned: Vec<(usize, LArc)>) {
@@ -355,6 +364,7 @@ fn run_thread(t: usize, sh: StdArc<Shared>, o: StdArc<Objs>, owned: Vec<(usize, 
         rx: None,
         tx: None,
         arcs: (0..na).map(|_| vec![]).collect(),
+        drop_guards: vec![],
     };
     if sh.prog.uses_channel() {
         if sh.prog.rx_owner as usize == t {
@@ -791,6 +801,11 @@ impl<'a> Th<'a> {
                     _ => &LAZY2,
                 };
                 Some(v.cell.with(|p| unsafe { std::ptr::read(p) }) as i64)
+            }
+            DropGuardStore { a } => {
+                let g = StoreOnDrop(self.atom(a));
+                self.drop_guards.push(g);
+                None
             }
             PanicInCellMut { c } => {
                 let t = self.t;
